@@ -615,6 +615,7 @@ func (rn *c13Runner) lookup(when string, scope int, expr []byte, x c13Expr, prim
 // run
 
 func c13Run(c c13Case) (*vlib.Failure, *c13Res) {
+	defer vlib.Guard("C13", c, nil)()
 	res := &c13Res{cnt: map[string]int{}, excl: map[string]int{}}
 	rn := &c13Runner{tree: NewObjectTree(), res: res, c: c}
 	// the root scope is index 0
